@@ -202,6 +202,9 @@ def run(ctx):
         if n <= 1 or not quick:
             for a in args[n]:
                 one(di.ListOfDicts([to_py(x) for x in l]), a)
+        if n >= 2:
+            # unique() without keys on every list (items differ in the order their keys were inserted, see to_py)
+            one(di.ListOfDicts([to_py(x) for x in l]), {"op": "unique", "keys": []})
         # chains: every step is judged against the observed state before it
         for _ in range(1 if quick else 4):
             cur = di.ListOfDicts([to_py(x) for x in l])
